@@ -3,7 +3,7 @@
 Model: coq/Attrs/Model.v   Theorems: coq/Props/C13.v
 Correspondence streams (every case: implementation run, direct property oracle, model evaluated in Coq):
   esc    django.utils.html.escape on hostile strings (model escape + decode round trip)
-  ats    attributes_to_string on dicts (exhaustive hostile values / names, then random)
+  ats    attributes_to_string on dicts (exhaustive hostile values / names / single name characters, SafeString keys, then random)
   tag    {% html_attrs %} through real template renders: positional / keyword attrs, defaults, repeated
          keywords, aggregate attrs:k / defaults:k, spreads, non-identifier keys, bool / None / numbers
   parse  reader differential: the model's attribute tokenizer against html.parser on attribute text
@@ -78,12 +78,30 @@ def v_is_safe(d):
     return isinstance(d, list) and d[0] == "safe"
 
 
+# A dictionary key is described by its text (plain str key) or by ["safe", text] (the key OBJECT is a SafeString).
+def k_text(k):
+    return k[1] if isinstance(k, (list, tuple)) else k
+
+
+def k_safe(k):
+    return isinstance(k, (list, tuple))
+
+
+def mk_key(k):
+    from django.utils.safestring import mark_safe
+    return mark_safe(k[1]) if k_safe(k) else k
+
+
+def key_term(k):
+    return "(%s, %s)" % (cstr(k_text(k)), C.cbool(k_safe(k)))
+
+
 def mk_dict(items):
-    return {k: mk_value(v) for k, v in items}
+    return {mk_key(k): mk_value(v) for k, v in items}
 
 
 def dict_term(items):
-    return clist(["(%s, %s)" % (cstr(k), v_term(v)) for k, v in items])
+    return clist(["(%s, %s)" % (key_term(k), v_term(v)) for k, v in items])
 
 
 def attrs_term(l):
@@ -158,7 +176,7 @@ def expected_attrs(final_items):
     for k, v in final_items:
         if v is None or v is False:
             continue
-        out.append((k.translate(ASCII_LOWER), None if v is True else v_text(v)))
+        out.append((k_text(k).translate(ASCII_LOWER), None if v is True else v_text(v)))
     return out
 
 
@@ -169,8 +187,8 @@ def check_roundtrip(chk, out, final_items, replay, where):
     """out: emitted attribute text; final_items: merged dict [(name, valuedesc)]. Returns the html.parser reading
     when it may be compared with the model (valid names, no safe values), else None."""
     rendered = [(k, v) for k, v in final_items if not (v is None or v is False)]
-    if any(v_is_safe(v) for _, v in rendered):
-        return None  # safe values are emitted as given: outside the statement
+    if any(v_is_safe(v) or k_safe(k) for k, v in rendered):
+        return None  # safe names / values are emitted as given: outside the statement
     got, broke = parse_back(out)
     exp = expected_attrs(final_items)
     names_fine = all(name_ok_for_htmlparser(k) for k, _ in rendered)
@@ -254,14 +272,7 @@ def run_ats(items):
         return ("err", type(e).__name__)
 
 
-def names_refused():
-    """Does the tree under test refuse names that cannot be HTML attribute names (proposed repair applied)?"""
-    return run_ats([("a b", ["s", "v"])]) == ("err", "ValueError")
-
-
 def stream_ats(chk, thorough, corpus_items):
-    strict = names_refused()
-    chk.extra["invalid_attr_names_refused"] = strict
     cases = [(it, "corpus") for it in corpus_items]
     alpha = ['"', "'", "<", ">", "&", " ", "=", "a", ";", "/"]
     # every value over the hostile alphabet up to length 3 (4), in first and in second position
@@ -277,24 +288,34 @@ def stream_ats(chk, thorough, corpus_items):
             nm = "".join(t)
             cases.append(([(nm, ["s", "v"])], "exh-name"))
             cases.append(([(nm, True), ("z", ["s", "v"])], "exh-name"))
+    # every single character of the forbidden class and its neighbours, alone and inside a name, bare and valued;
+    # the same with the key object marked safe (exempt from the check), and with a value that is not emitted
+    for c in list(range(0, 50)) + list(range(55, 66)) + list(range(120, 170)) + [0x2028, 0x3000, 0xFEFF]:
+        for nm in (chr(c), "a" + chr(c) + "b"):
+            cases.append(([(nm, ["s", "v"])], "exh-name-char"))
+            cases.append(([("k0", ["s", "1"]), (nm, True)], "exh-name-char"))
+            if c < 66:
+                cases.append(([(["safe", nm], ["s", "v"])], "exh-name-char-safe"))
+                cases.append(([(nm, None), ("k0", ["s", "1"])], "exh-name-char-omitted"))
     # value kinds x 3 positions
     kinds = [["s", "x"], ["safe", "<i>"], True, False, None, ["n", 7], ["s", ""]]
     for combo in itertools.product(kinds, repeat=3):
         cases.append(([("a", combo[0]), ("B", combo[1]), ("c-d", combo[2])], "exh-kinds"))
+        cases.append(([("a", combo[0]), ("B b", combo[1]), (["safe", "c d"], combo[2])], "exh-kinds-badname"))
     rng = chk.rng
     for _ in range(30000 if thorough else 3000):
         n = rng.randint(0, 5)
-        names = rng.sample(GOOD_NAMES, n) if rng.random() < 0.93 else [rng.choice(BAD_NAMES + GOOD_NAMES) for _ in range(n)]
+        names = rng.sample(GOOD_NAMES, n) if rng.random() < 0.9 else [rng.choice(BAD_NAMES + GOOD_NAMES) for _ in range(n)]
         names = list(dict.fromkeys(names))
-        cases.append(([(k, rand_value(rng)) for k in names], "random"))
+        cases.append(([(["safe", k] if rng.random() < 0.06 else k, rand_value(rng)) for k in names], "random"))
     terms, kept = [], []
     for items, kind in cases:
         res = run_ats(items)
         hostile = any(v_is_str(v) and any(c in v[1] for c in "\"'<>& ") for _, v in items)
         chk.count(("ats", repr(items)), hostile, kind="ats-" + kind,
                   sample={"attributes_to_string": items, "result": res[1]} if kind == "random" and hostile and len(items) > 2 else None)
+        emitted_names = [k for k, v in items if not (v is None or v is False) and not k_safe(k)]
         if res[0] != "out":
-            emitted_names = [k for k, v in items if not (v is None or v is False)]
             if not (res[1] == "ValueError" and not all(name_ok(k) for k in emitted_names)):
                 chk.fail("c13-ats-raises", "attributes_to_string raised %s" % res[1], {"kind": "ats", "items": items})
                 continue
@@ -302,12 +323,26 @@ def stream_ats(chk, thorough, corpus_items):
             terms.append("(%s, None)" % dict_term(items))
             kept.append(items)
             continue
-        check_roundtrip(chk, res[1], items, {"kind": "ats", "items": items}, "attributes_to_string")
+        if not all(name_ok(k) for k in emitted_names):
+            chk.fail(TRIG_NAMES, "attributes_to_string emitted an attribute whose (non-safe) NAME is empty or contains white space / quotes / "
+                     "> / = / & / < / control characters instead of refusing it", {"kind": "ats", "items": items, "emitted": res[1]})
+        else:
+            check_roundtrip(chk, res[1], items, {"kind": "ats", "items": items}, "attributes_to_string")
         terms.append("(%s, Some %s)" % (dict_term(items), cstr(res[1])))
         kept.append(items)
-    bad = C.coq_eval_cases("C13", "ats", IMPORTS, "ats_case", "check_ats_strict" if strict else "check_ats", terms, shard=2500)
+    bad = C.coq_eval_cases("C13", "ats", IMPORTS, "ats_case", "check_ats", terms, shard=2500)
     for i in bad[:10]:
         chk.disagree("model attributes_to_string != implementation", {"kind": "ats", "items": kept[i]})
+    # assumption of the anchor name_class_anchor (Attrs/Proofs.v): the class matches nothing from U+3000 upwards
+    try:
+        from django_components import attributes as _att
+        rx = _att._INVALID_ATTR_NAME_RE
+        high = [cp for cp in range(0x3000, 0x110000) if rx.search(chr(cp))]
+    except Exception as e:  # noqa
+        high = ["no _INVALID_ATTR_NAME_RE: %s" % type(e).__name__]
+    chk.extra["invalid_name_class_matches_above_U+3000"] = high[:20]
+    if high:
+        chk.disagree("the attribute-name check of the tree under test differs from the modelled class above U+3000", {"kind": "name-class", "codepoints": high[:20]})
 
 
 # ---------------------------------------------------------------------------------------------
@@ -330,7 +365,7 @@ def run_tag(params):
             ctx[var] = mk_dict(p[2])
             parts.append("%s=%s" % (p[1], var))
         elif p[0] == "spread":
-            ctx[var] = {k: (mk_dict(v["dict"]) if isinstance(v, dict) else mk_value(v)) for k, v in p[1]}
+            ctx[var] = {mk_key(k): (mk_dict(v["dict"]) if isinstance(v, dict) else mk_value(v)) for k, v in p[1]}
             parts.append("..." + var)
         else:
             raise ValueError(p)
@@ -364,6 +399,7 @@ def in_merge_index_class(flat):
     for k, _ in flat:
         if k is None:
             continue
+        k = k_text(k)
         if k in first:
             if dropped_before_first[k] > 0:
                 return True
@@ -375,7 +411,7 @@ def in_merge_index_class(flat):
 
 
 def tparam_term(k, v):
-    key = "None" if k is None else "(Some (%s, %s))" % (cstr(k), C.cbool(is_ident(k)))
+    key = "None" if k is None else "(Some (%s, %s))" % (key_term(k), C.cbool(is_ident(k_text(k))))
     if isinstance(v, dict):
         val = "TD %s" % dict_term(v["dict"])
     else:
@@ -395,8 +431,12 @@ def tag_oracle(params):
     attrs= / defaults= / attrs:k= / defaults:k= forms (one form per dict), extra keywords after.
     Returns None when the use is not well-formed (errors there are C11's business), else (items, nonstring):
     defaults, overridden by attrs, then every extra keyword value appended to the same-named attribute with one
-    space; nonstring = some append joins a dictionary value with a non-string (statement silent, TypeError allowed)."""
+    space; nonstring = some append joins a dictionary value with a non-string (statement silent, TypeError allowed).
+    Uses with a SafeString key object anywhere are left to the model comparison (the statement is about non-safe names)."""
     flat = flat_params(params)
+    if any(k_safe(k) for k, _ in flat if k is not None) or any(
+            k_safe(k2) for _, v in flat if isinstance(v, dict) for k2, _v2 in v["dict"]):
+        return None
     pos, seen_kw = [], False
     for k, v in flat:
         if k is None:
@@ -471,12 +511,15 @@ def gen_tag_params(rng):
     r = rng.random()
     inner = ["class", "id", "data-id", "@click", "style", "title", ":href"]
 
+    def maybe_safe(k):
+        return ["safe", k] if rng.random() < (0.25 if bad else 0.02) else k
+
     def rdict(maxn=3, bad=False):
         n = rng.randint(0, maxn)
         pool = inner + (BAD_NAMES if bad else [])
         ks = list(dict.fromkeys(rng.choice(pool) for _ in range(n)))
-        return [(k, rand_value(rng)) for k in ks]
-    bad = rng.random() < 0.04
+        return [(maybe_safe(k), rand_value(rng)) for k in ks]
+    bad = rng.random() < 0.06
     mode = rng.choice(["pos", "pos", "kw", "agg", "mixed", "none"])
     if mode == "pos":
         params.append(["pos", rdict(bad=bad) if rng.random() < 0.9 else None])
@@ -514,7 +557,7 @@ def gen_tag_params(rng):
             n = rng.randint(0, 3)
             pool = SPREAD_KEYS + (BAD_NAMES if bad else [])
             ks = list(dict.fromkeys(rng.choice(pool) for _ in range(n)))
-            params.append(["spread", [[k, rand_value(rng) if rng.random() < 0.3 else ["s", rand_text(rng, 6)]] for k in ks]])
+            params.append(["spread", [[maybe_safe(k), rand_value(rng) if rng.random() < 0.3 else ["s", rand_text(rng, 6)]] for k in ks]])
     if mode != "mixed" and rng.random() < 0.03:
         rng.shuffle(params)
     return params
@@ -545,6 +588,26 @@ def exhaustive_tag_params():
         [["spread", [["attrs", {"dict": A}], ["class", ["s", "k"]]]]], [["pos", None], ["pos", None]], [],
         [["kw", "attrs:class", ["s", "A"]], ["kw", "attrs:class", ["s", "B"]], ["kw", "class", ["s", "k"]]],
     ]
+    # every pattern of repeats: all keyword sequences of length <= 5 over three names (one a non-identifier), the i-th
+    # value being the letter i; with and without dictionaries that already hold two of the names
+    for L in range(2, 6):
+        for seq in itertools.product(["class", "id", "data-x"], repeat=L):
+            if len(set(seq)) == L:
+                continue   # no repeat
+            kws = [["kw", k, ["s", "v%d" % i]] for i, k in enumerate(seq)]
+            out.append(kws)
+            if L <= 4:
+                out.append([["pos", [("class", ["s", "A"])]], ["pos", [("id", ["s", "D"]), ("class", ["s", "d"])]]] + kws)
+    # repeats whose values are not strings: str() of each is joined
+    for v1, v2 in itertools.product(vals, repeat=2):
+        out.append([["kw", "class", v1], ["kw", "class", v2]])
+        out.append([["pos", [("class", ["s", "A"])]], ["kw", "class", v1], ["kw", "id", ["s", "i"]], ["kw", "class", v2]])
+    # the same name reaching the merge with different key objects (plain / SafeString): the first one's mark stays
+    for n1, n2 in ((["safe", "x y"], "x y"), ("x y", ["safe", "x y"]), (["safe", "x y"], ["safe", "x y"])):
+        out.append([["spread", [[n1, ["s", "q"]]]], ["spread", [[n2, ["s", "r"]]]]])
+        out.append([["pos", [(n1, ["s", "q"])]], ["pos", [(n2, ["s", "r"])]]])
+        out.append([["pos", [(n1, ["s", "q"])]], ["spread", [[n2, ["s", "r"]]]]])
+        out.append([["pos", []], ["pos", [(n1, ["s", "q"])]], ["spread", [[n2, ["s", "r"]]]]])
     for f in forms:
         for tail in ([], [["kw", "class", ["s", "k1"]]], [["kw", "id", ["s", "i"]], ["kw", "class", ["s", "k1"]], ["kw", "data-x", ["s", "d"]], ["kw", "class", ["n", 2]]]):
             out.append(f + tail)
@@ -556,44 +619,43 @@ def stream_tag(chk, thorough, corpus_params):
     for _ in range(25000 if thorough else 5000):
         cases.append((gen_tag_params(chk.rng), "random"))
     terms, kept = [], []
-    strict = names_refused()
-    # is the index defect of merge_repeated_kwargs present in the tree under test? (minimal witness; also in the corpus)
-    probe, _ = run_tag([["kw", "class", ["s", "a"]], ["kw", "class", ["s", "b"]], ["kw", "id", ["s", "c"]], ["kw", "id", ["s", "d"]]])
-    merge_defect = probe[0] == "err"
-    chk.extra["merge_repeated_kwargs_index_defect_present"] = merge_defect
     for params, kind in cases:
         res, src = run_tag(params)
         flat = flat_params(params)
         replay = {"kind": "tag", "params": params, "template": src}
         exp = tag_oracle(params)
         parsed = None
-        keys = [k for k, _ in flat if k is not None]
+        keys = [k_text(k) for k, _ in flat if k is not None]
         nontriv = len(set(keys)) < len(keys) or (exp is not None and any(
             v_is_str(v) and any(c in v[1] for c in "\"'<>&") for _, v in exp[0]))
         chk.count(("tag", repr(params)), nontriv, kind="tag-" + kind + ("-err" if res[0] == "err" else ""),
                   sample={"template": src, "params": params, "result": res[1]} if kind == "random" and nontriv and len(params) > 2 else None)
-        n_fail = len(chk.failures)
+        if any(k_safe(k) for k, _ in flat if k is not None) or any(
+                k_safe(k2) for _, v in flat if isinstance(v, dict) for k2, _v2 in v["dict"]):
+            chk.dist["tag:with-safe-key"] += 1
+        if len(set(keys)) < len(keys):
+            chk.dist["tag:repeated-keyword"] += 1
+        if res[0] == "err":
+            chk.dist["tag:" + res[1]] += 1
         if exp is not None:
             items, nonstr = exp
+            bad_names = not all(name_ok(k) for k, v in items if not (v is None or v is False))
             if res[0] == "err":
-                refused = strict and res[1] == "ValueError" and not all(name_ok(k) for k, v in items if not (v is None or v is False))
+                refused = res[1] == "ValueError" and bad_names
                 if not (nonstr and res[1] == "TypeError") and not refused:
-                    chk.fail("c13-tag-raises", "well-formed {%% html_attrs %%} raised %s: %s" % (res[1], res[2]), replay)
+                    # root-cause class decided on the INPUT: the (fixed) index defect of merge_repeated_kwargs lives here
+                    trig = TRIG_MERGE if in_merge_index_class(flat) else "c13-tag-raises"
+                    chk.fail(trig, "well-formed {%% html_attrs %%} raised %s: %s" % (res[1], res[2]), replay)
             elif nonstr:
                 pass  # statement silent (appending to / from a non-string); model still compared
+            elif bad_names:
+                chk.fail(TRIG_NAMES, "{% html_attrs %} emitted an attribute whose (non-safe) NAME cannot be written as one HTML attribute name "
+                         "instead of refusing it", dict(replay, emitted=res[1]))
             else:
                 parsed = check_roundtrip(chk, res[1], items, replay, "{% html_attrs %}")
-        if merge_defect and in_merge_index_class(flat):
-            # the defect of merge_repeated_kwargs is live on this input class: classify what the oracle found, and do
-            # not compare with the model (which describes the repaired merge) here
-            if len(chk.failures) > n_fail:
-                t, what, rp = chk.failures.pop()
-                chk.fail(TRIG_MERGE, "repeated keyword after an earlier repeated keyword: " + what, rp)
-            chk.dist["tag-skipped-merge-index-class"] += 1
-            continue
         terms.append("(%s, %s, %s)" % (clist([tparam_term(k, v) for k, v in flat]), outcome_term(res), copt(parsed, attrs_term)))
         kept.append(replay)
-    bad = C.coq_eval_cases("C13", "tag", IMPORTS, "tag_case", "check_tag_strict" if strict else "check_tag", terms, shard=1500)
+    bad = C.coq_eval_cases("C13", "tag", IMPORTS, "tag_case", "check_tag", terms, shard=1500)
     for i in bad[:10]:
         chk.disagree("model html_attrs_tag != {% html_attrs %} render", kept[i])
 
@@ -959,7 +1021,8 @@ def run(tier, seed):
         "reader = html.parser (Python 3.12) on `<div ATTRS>`; names compared ASCII-lower-cased (HTML attribute names are case-insensitive), as a multiset",
         "the model's reader is the WHATWG attribute tokenizer without CR/NUL input preprocessing; character references need the closing ';'",
         "attribute names that html.parser splits at non-ASCII white space (its regex \\s) although WHATWG does not are compared on the emitted text only",
-        "SafeString values / Slot(escaped=True) are the caller's declaration that the text is already HTML: emitted as given",
+        "SafeString values / SafeString attribute names / Slot(escaped=True) are the caller's declaration that the text is already HTML: emitted as given (a SafeString name is exempt from the name check; which key object a merged name keeps - the first inserted - is compared with the model only)",
+        "attribute names: the code refuses (ValueError) empty names and names with a character of [\\x00-\\x20\\x7f-\\x9f\"'>/=&<]; the statement does not say whether such a name is refused or repaired - refusal is what the fix c3ea7ff chose; emitting such a name is reported as c13-attr-name-chars",
         "str.isidentifier / keyword.iskeyword verdicts are inputs of the model (they only decide the ORDER of extra attributes)",
         "values are str, SafeString, bool, None, int/float; dict-valued extra attributes and aggregate prefixes other than attrs:/defaults: are out of the model's scope (never generated)",
     ]
@@ -968,12 +1031,16 @@ def run(tier, seed):
             print("DISAGREE", what, json.dumps(rp, default=repr)[:600])
     return chk.finish(
         rule="esc: all strings <= %d over 8 hostile symbols + random; ats: every value <= %d and every name <= %d over a 10-symbol hostile alphabet, "
-             "all 7^3 value-kind triples, random dicts; tag: overlap patterns of one key across defaults/attrs/two keywords x 6 value kinds, 16 ways of "
+             "every code point 0-49, 55-65, 120-169 (+3 high ones) alone and inside a name x valued / bare / SafeString key / omitted value, all 7^3 "
+             "value-kind triples (also with an invalid plain and an invalid safe name), random dicts (6%% SafeString keys); tag: overlap patterns of one key "
+             "across defaults/attrs/two keywords x 6 value kinds, ALL keyword sequences with a repeat of length <= 5 over 3 names (with and without "
+             "dictionaries holding the names), repeats of non-string values, plain/SafeString key objects of one name meeting in the merge, 16 ways of "
              "passing the dicts x 3 tails, random param lists (positional, attrs=/defaults=, attrs:k/defaults:k, repeated keywords, spreads, non-identifier "
-             "keys, ill-formed mixes); parse: random well-formed attribute text; slot: 8 texts x plain/safe x str/function/Slot/Slot(escaped) x flag x all "
-             "hop chains <= 2 over {repass T/F, rewrap T/F, dynamic} + random longer; wrap: every listed context x letter-case variants of </script / </style, "
-             "look-alikes, Unicode case-folding traps, random strings over the end-tag alphabet, 24 real renders. Non-trivial = value with a special character "
-             "or an append (attrs), special characters travelling through >= 1 hop (slot), an end tag present (wrap)."
+             "keys, invalid names, SafeString keys, ill-formed mixes); parse: random well-formed attribute text; slot: 11 texts x plain/safe x "
+             "str/function/Slot/Slot(escaped) x flag x all hop chains <= 2 over {repass T/F, rewrap T/F, dynamic} + random longer; wrap: every listed context "
+             "x letter-case variants of </script / </style, look-alikes, Unicode case-folding traps, random strings over the end-tag alphabet, 24 real "
+             "renders. Non-trivial = value with a special character or an append (attrs), special characters travelling through >= 1 hop (slot), an end "
+             "tag present (wrap)."
              % (5 if thorough else 4, 4 if thorough else 3, 3 if thorough else 2),
         explanation="Theorems of Props/C13.v re-checked by coqc; the model (escape, merge, tag-level param processing, attribute tokenizer, slot "
                     "normalisation, end-tag guard) is evaluated by vm_compute inside Coq on every generated case and compared with what the "
